@@ -865,6 +865,14 @@ def run_text_level(ck, pr):
             return "TArrow"
         return rng.choice(["TComma", ("TOpen", "GTup"), ("TClose", "GTup"), ("TS", "0%nat", True), ("TRg", True, True), ("TNamed", codes("n")), "TFunc"])
 
+    def tok_plain(t):
+        """generated token term -> the shape parse_term gives for Coq's printing of it"""
+        if isinstance(t, str) and t.endswith("%nat"):
+            return int(t[:-4])
+        if isinstance(t, (list, tuple)):
+            return [tok_plain(x) for x in t]
+        return t
+
     def unq(t):
         """Coq prints the lexer model's constructors qualified (FmtLexProofs.L.KControl): drop the qualifier"""
         if isinstance(t, str):
@@ -876,10 +884,8 @@ def run_text_level(ck, pr):
     # every symbol next to every symbol (maximal munch across a blank), and each class alone
     cases += [[("TS", "%d%%nat" % a, False), ("TS", "%d%%nat" % b, False)] for a in range(nsym) for b in range(nsym)]
     cases += [[("TAlias", codes("x")), ("TS", "%d%%nat" % a, False), "TArrow", "TPipe"] for a in range(nsym)]
-    hdr = (HEADER + "From PV Require Model.Lexer Model.LexerGen Proofs.FmtLexProofs.\n"
-           "Definition sk := (fun s => FmtLexProofs.kind_or_start (FmtLexProofs.sym_kind LexerGen.gen_tables (nth s symtab []))).\n"
-           "Definition ak := FmtLexProofs.kind_or_start (FmtLexProofs.sym_kind LexerGen.gen_tables [61; 62]).\n")
-    vals = coq_eval(hdr, ["(forallb (FmtLexProofs.spaced_tok R_prql (length symtab)) %s, (render R_prql %s, flat_map (FmtLexProofs.tok_kinds sk ak) %s))" % ((coq(ts),) * 3) for ts in cases])
+    hdr = HEADER + "From PV Require Import Model.FmtLex Model.FmtLexInst.\nFrom PV Require Model.Lexer Model.LexerGen.\n"
+    vals = coq_eval(hdr, ["(spaced_prql %s, (render R_prql %s, kinds_prql %s))" % ((coq(ts),) * 3) for ts in cases])
     todo = []
     for ts, v in zip(cases, vals):
         text = "".join(chr(c) for c in v[1][0])
@@ -888,11 +894,22 @@ def run_text_level(ck, pr):
         if v[0]:
             todo.append((ts, text, [py_model_kind(unq(k)) for k in v[1][1]]))
     ans = harness("c14lex", [{"src": t} for _, t, _ in todo])
+    back = []
     for (ts, text, want), a in zip(todo, ans):
         got = [py_impl_kind(k) for k in a["ok"]][1:] if isinstance(a, dict) and "ok" in a else None
         if got != want:
             ck.disagreement("the rendered text of a spaced token list does not lex to the kinds of its tokens (fmt_text_lexes)",
                             {"tokens": coq(ts)[:400], "text": text, "model_kinds": str(want)[:400], "real": str(got if got is not None else a)[:400]}, None)
+            continue
+        back.append((ts, text, a["ok"][1:]))
+    # the way back (untok_prql) on what the REAL lexer produced: its kinds, read back by the model, are the token list
+    from .c17_lib import coq_kind
+    bv = coq_eval(hdr, ["untok_prql [%s]" % "; ".join("Lexer." + coq_kind(k).replace("(L", "(Lexer.L") for k in ks) for _, _, ks in back])
+    for (ts, text, ks), v in zip(back, bv):
+        ck.count("corr-text-untok", text)
+        if not (isinstance(v, tuple) and v[0] == "Some" and unlist(v[1]) == unlist(tok_plain(ts))):
+            ck.disagreement("the kinds the lexer gives for a rendered spaced token list do not read back as the token list (untok_prql)",
+                            {"tokens": coq(ts)[:400], "text": text, "model_back": str(v)[:400]}, None)
 
 
 def drop_parens(rng, s):
